@@ -190,19 +190,23 @@ mut('c17-out-fresh-element', 'C17', 'odl/space/npy_tensors.py',
     "                    out_space = type(self.space)(self.shape, res.dtype,\n                                                 **spc_kwargs)\n                    out = out_space.element(res)\n                elif ufunc.__name__ == 'negative':\n                    out = out.copy()\n\n                return out")
 
 # ---- C18 -----------------------------------------------------------------
-mut('c18-plan-on-copy-revert', 'C18', 'odl/trafos/backends/pyfftw_bindings.py',
-    "    if must_copy_array_in:\n", "    if must_copy_array_in and not array_in_copied:\n")
+mut('c18-plan-restore-skips-cast-copy', 'C18', 'odl/trafos/backends/pyfftw_bindings.py',
+    "        if must_save_array_in:\n            array_in[...] = saved_in\n",
+    "        if must_save_array_in and not array_in_copied:\n            array_in[...] = saved_in\n")
 mut('c18-c2r-copy-revert', 'C18', 'odl/trafos/backends/pyfftw_bindings.py',
     "    if (not array_in_copied and direction == 'backward' and halfcomplex and\n            array_in.ndim != 1):",
     "    if (not array_in_copied and direction == 'backward' and halfcomplex and\n            array_in.ndim > 99):")
 mut('c18-destroy-input-flag-revert', 'C18',
     'odl/trafos/backends/pyfftw_bindings.py',
-    "    flags = [_flag_odl_to_pyfftw(planning_effort)]\n\n    # Multi-dimensional",
-    "    flags = [_flag_odl_to_pyfftw(planning_effort)]\n    if must_copy_array_in:\n        flags.append('FFTW_DESTROY_INPUT')\n\n    # Multi-dimensional")
-mut('c18-inplace-plan-revert', 'C18',
+    "    flags = [_flag_odl_to_pyfftw(planning_effort)]\n\n    if fftw_plan_in is None:",
+    "    flags = [_flag_odl_to_pyfftw(planning_effort)]\n    if must_save_array_in:\n        flags.append('FFTW_DESTROY_INPUT')\n\n    if fftw_plan_in is None:")
+mut('c18-inplace-plan-no-restore', 'C18',
     'odl/trafos/backends/pyfftw_bindings.py',
-    "        plan_arr_out = plan_arr_in if array_out is array_in else array_out\n",
-    "        plan_arr_out = array_out\n")
+    "        if must_save_array_in:\n            array_in[...] = saved_in\n",
+    "        if must_save_array_in and array_out is not array_in:\n            array_in[...] = saved_in\n")
+mut('c18-fftw-plan-any-layout', 'C18', 'odl/trafos/backends/pyfftw_bindings.py',
+    "    if fftw_plan_in is not None and (\n            array_in.strides != fftw_plan_in.input_strides or",
+    "    if fftw_plan_in is not None and array_in.ndim > 99 and (\n            array_in.strides != fftw_plan_in.input_strides or")
 mut('c18-inverse-norm-dropped', 'C18', 'odl/trafos/fourier.py',
     "        if self.sign == '-':\n            out /= np.prod(np.take(self.domain.shape, self.axes))\n\n        if out_real is not None:",
     "        if self.sign == '-' and out.ndim != 3:\n            out /= np.prod(np.take(self.domain.shape, self.axes))\n\n        if out_real is not None:")
